@@ -188,3 +188,140 @@ Proof. vm_compute. reflexivity. Qed.
 Example C08_example_mixed_keys :
   template_sort (fun x : pyval => x) false [VTuple [VStr [97%N]]; VTuple [VInt 5]] = None.
 Proof. vm_compute. reflexivity. Qed.
+
+(* ---- the whole program (Whole/Main.v [tempren_main]; proofs in Whole/SortWhole.v) ---- *)
+From Tempren Require Import Py.PathLib FS.Model FS.Lemmas Pipe.Pipeline Pipe.FrontCompile Pipe.PlanExact
+  Pipe.DryEqualsRealDir Tpl.Alias.
+From Tempren Require Import Whole.Library Whole.Render Whole.Gather Whole.Main Whole.Facts Whole.CountWhole
+  Whole.SortWhole Whole.Examples.
+
+(* `--sort '%Name()'` in name or path mode, for EVERY tree, input list, -r, -ih and listing order: the processing
+   order of the program is what the template sorter returns for the keys (name,) (no TypeError); it is a
+   rearrangement of the listed files (of the gathered files when the listing only permutes), sorted by file name in
+   Python's str order (code points, lexicographically: Py/Order.v [str_leb]; equivalently Python's <= on the
+   1-tuples), and stable: the files with one and the same name stand in the order in which they were listed. *)
+Theorem C08_whole_sorted_by_name : forall o s dirs,
+  o_mode o <> MDirectory -> o_sort_name o = true ->
+  let listed := o_listing o (gather_all o s dirs) in
+  let r := processing_order o s dirs in
+  template_sort name_key false listed = Some r /\
+  Permutation r listed /\
+  (permutes (o_listing o) -> Permutation r (gather_all o s dirs)) /\
+  StronglySorted (fun a b => str_leb (file_name a) (file_name b) = true) r /\
+  StronglySorted (fun a b => py_le (name_key a) (name_key b) = Some true) r /\
+  (forall n, filter (fun f => str_eqb n (file_name f)) r = filter (fun f => str_eqb n (file_name f)) listed).
+Proof. exact processing_order_sorted_by_name. Qed.
+Print Assumptions C08_whole_sorted_by_name.
+
+Theorem C08_whole_sorted_by_name_nth : forall o s dirs i j a b,
+  o_mode o <> MDirectory -> o_sort_name o = true ->
+  nth_error (processing_order o s dirs) i = Some a ->
+  nth_error (processing_order o s dirs) j = Some b ->
+  (i < j)%nat -> str_leb (file_name a) (file_name b) = true.
+Proof. exact processing_order_names_nth. Qed.
+Print Assumptions C08_whole_sorted_by_name_nth.
+
+(* "files are numbered in the order given by the sort expression", for the expression %Name() and the template
+   %Count(): once the command line is accepted the program IS the pipeline run on a plan that lists the files in
+   name order (sorted, stable) and gives the i-th of them the number of C16_whole_count_numbers - how many files of
+   the same directory stand before it in that order. *)
+Theorem C08_whole_sorted_count_numbers : forall upper lower o dirs s,
+  o_mode o <> MDirectory -> o_sort_name o = true ->
+  args_ok s t_count_plain dirs = true -> no_gatherers o s dirs = false ->
+  let files := processing_order o s dirs in
+  let plan := whole_plan upper lower [BTag fid_Count CountWhole.no_targs tt false []] o dirs s in
+  tempren_main upper lower core_reg o t_count_plain dirs s = run (cfg_of_options o) plan (o_cwd o) s /\
+  map fst plan = files /\
+  StronglySorted (fun a b => str_leb (file_name a) (file_name b) = true) files /\
+  (forall n, filter (fun f => str_eqb n (file_name f)) files =
+             filter (fun f => str_eqb n (file_name f)) (o_listing o (gather_all o s dirs))) /\
+  forall i f, nth_error files i = Some f ->
+    nth_error plan i =
+    Some (f, RText (decimal_Z (Z.of_nat (occ (file_dirkey f) (firstn i (map file_dirkey files)))))).
+Proof. exact sorted_count_numbers. Qed.
+Print Assumptions C08_whole_sorted_count_numbers.
+
+(* directory mode: the processing order is the depth sorter's - a rearrangement of the listed directories, deepest
+   relative path first, directories of one depth in listing order *)
+Theorem C08_whole_depth_order : forall o s dirs,
+  o_mode o = MDirectory ->
+  let listed := o_listing o (gather_all o s dirs) in
+  let r := processing_order o s dirs in
+  Permutation r listed /\
+  StronglySorted (fun a b => (Main.depth_key b <= Main.depth_key a)%nat) r /\
+  (forall n, filter (fun f => Nat.eqb n (Main.depth_key f)) r = filter (fun f => Nat.eqb n (Main.depth_key f)) listed).
+Proof. exact processing_order_depth. Qed.
+Print Assumptions C08_whole_depth_order.
+
+(* ... so a directory a is never listed before a directory b below it (dir_key = src_key = input directory ++
+   relative path; proper_prefix: FS/Lemmas.v), provided b's input directory is not longer than a's - in particular
+   when the same gatherer produced both, and always when there is one input directory.  The proviso cannot be
+   dropped: the sort key is the depth of the RELATIVE path, see C08_whole_example_nested_inputs. *)
+Theorem C08_whole_descendants_first : forall o s dirs i j a b,
+  o_mode o = MDirectory ->
+  nth_error (processing_order o s dirs) i = Some a ->
+  nth_error (processing_order o s dirs) j = Some b ->
+  proper_prefix (dir_key a) (dir_key b) ->
+  (length (pf_dir b) <= length (pf_dir a))%nat ->
+  (j < i)%nat.
+Proof. exact descendants_first. Qed.
+Print Assumptions C08_whole_descendants_first.
+
+Theorem C08_whole_descendants_first_same_input : forall o s dirs i j a b,
+  o_mode o = MDirectory ->
+  nth_error (processing_order o s dirs) i = Some a ->
+  nth_error (processing_order o s dirs) j = Some b ->
+  pf_dir a = pf_dir b ->
+  proper_prefix (src_key a) (src_key b) ->
+  (j < i)%nat.
+Proof. exact descendants_first_same_input. Qed.
+Print Assumptions C08_whole_descendants_first_same_input.
+
+Theorem C08_whole_descendants_first_one_input : forall o s d i j a b,
+  o_mode o = MDirectory -> o_recursive o = true -> permutes (o_listing o) ->
+  nth_error (processing_order o s [d]) i = Some a ->
+  nth_error (processing_order o s [d]) j = Some b ->
+  proper_prefix (dir_key a) (dir_key b) ->
+  (j < i)%nat.
+Proof. exact descendants_first_one_input. Qed.
+Print Assumptions C08_whole_descendants_first_one_input.
+
+(* the example tree, inputs in/ and in/s/, -r --sort '%Name()': listed b.t a.t s/c s/d.t | c d.t, processed
+   a.t b.t s/c c s/d.t d.t (the two c and the two d.t in listing order); with the listing reversed and hidden files:
+   .h a.t b.t c s/c d.t s/d.t (again in listing order - stable in both); %Count() numbers them along that order,
+   per directory: in/ has a.t 0, b.t 1 and in/s/ has s/c 0, c 1, s/d.t 2, d.t 3.  With the one input in/ the run
+   renames a.t, b.t, s/c, s/d.t to 0, 1, 0, 1 in that order and ends with status 0. *)
+Example C08_whole_example :
+  let dirs2 := [[ex_in]; [ex_in; [115]%N]] in
+  let show o := map (fun f => (pf_dir f, pp_parts (pf_rel f))) (processing_order o ex_tree dirs2) in
+  let i := [ex_in] in let is_ := [ex_in; [115]%N] in
+  show (ex_options MName true true) =
+    [(i, [[97; 46; 116]]); (i, [[98; 46; 116]]); (i, [[115]; [99]]); (is_, [[99]]);
+     (i, [[115]; [100; 46; 116]]); (is_, [[100; 46; 116]])]%N /\
+  show (ex_options_rev MPath true true) =
+    [(i, [[46; 104]]); (i, [[97; 46; 116]]); (i, [[98; 46; 116]]); (is_, [[99]]); (i, [[115]; [99]]);
+     (is_, [[100; 46; 116]]); (i, [[115]; [100; 46; 116]])]%N /\
+  map snd (whole_plan ascii_upper_str ascii_lower_str [BTag fid_Count CountWhole.no_targs tt false []]
+             (ex_options MName true true) dirs2 ex_tree)
+    = [RText [48]; RText [49]; RText [48]; RText [49]; RText [50]; RText [51]]%N /\
+  args_ok ex_tree t_count_plain ex_dirs = true /\ no_gatherers (ex_options MName true true) ex_tree ex_dirs = false /\
+  let r := ex_main (ex_options MName true true) t_count_plain ex_dirs ex_tree in
+  r_status r = 0%Z /\
+  r_final r = [ ([ex_in], NDir); ([ex_in; [49]], NFile 1); ([ex_in; [48]], NFile 2); ([ex_in; [46; 104]], NFile 3);
+                ([ex_in; [115]], NDir); ([ex_in; [115]; [48]], NFile 4); ([ex_in; [115]; [49]], NFile 5);
+                ([[111; 116; 104; 101; 114]], NDir); ([[111; 116; 104; 101; 114]; [122]], NFile 6) ]%N.
+Proof. vm_compute. repeat split; reflexivity. Qed.
+
+(* directory mode -r on a/ a/b/ a/b/c/ a/b/c/d/ a/b/c/d/e/ a/d/: with the input a/ deepest first (a/b/c/d/e, a/b/c/d,
+   a/b/c, then a/b and a/d in listing order); with the nested inputs a/ and a/b/c/ the entry (a/b/c, d/e) of depth 2
+   comes AFTER its ancestor (a, b/c/d) of depth 3 - the proviso of C08_whole_descendants_first is needed (the same
+   directory a/b/c/d/e is then also listed, and processed first, under the input a/) *)
+Example C08_whole_example_nested_inputs :
+  let a := [97]%N in let b := [98]%N in let c := [99]%N in let d := [100]%N in let e := [101]%N in
+  let tree := [([a], NDir); ([a; b], NDir); ([a; b; c], NDir); ([a; b; c; d], NDir); ([a; b; c; d; e], NDir); ([a; d], NDir)] in
+  let show dirs := map (fun f => (pf_dir f, pp_parts (pf_rel f)))
+                       (processing_order (ex_options MDirectory true false) tree dirs) in
+  show [[a]] = [([a], [b; c; d; e]); ([a], [b; c; d]); ([a], [b; c]); ([a], [b]); ([a], [d])] /\
+  show [[a]; [a; b; c]] =
+    [([a], [b; c; d; e]); ([a], [b; c; d]); ([a], [b; c]); ([a; b; c], [d; e]); ([a], [b]); ([a], [d]); ([a; b; c], [d])].
+Proof. vm_compute. split; reflexivity. Qed.
